@@ -1,7 +1,7 @@
 """Unit autoscale: Scaling.from_nominal_values / from_grad_jac / from_equilibrated_kkt against AutoScale.v."""
 import sys
 
-sys.path.insert(0, "/repo")
+sys.path.insert(0, __import__("os").environ.get("VERIF_REPO", "/repo"))
 import numpy as np
 import scipy.sparse as sps
 
